@@ -176,7 +176,10 @@ def check(run):
                    f"a {typ} node is constructed only after {vname}() accepted the text that becomes its value" + (" (the domain group)" if typ == "network.email" else ""),
                    f"needs `{want[7:]}` to hold; reaching condition is {G.show(pc)}", mech="reaching condition => validator atom (truth table)")
             if typ == "network.domain" and fi.fq == "decoders.network.find_domains":
-                az2 = G.Atomizer(subst=env, is_int=lambda e: True)
+                # module-level integer constants (MIN_DOMAIN_LENGTH = 7) are read as their value
+                consts_ = {k_: v_ for k_, v_ in m.assigns.items() if isinstance(v_, ast.Constant) and isinstance(v_.value, int) and not isinstance(v_.value, bool)
+                           and k_ not in m.multi_assigned and k_ not in env}
+                az2 = G.Atomizer(subst={**consts_, **env}, is_int=lambda e: True)
                 pc2 = site_pc(fi, n, az2)
                 ok7, _ = G.implies(pc2, az2.formula(common.spec_expr(f"len({vsrc}) >= 7")))
                 run.ob("R1-validator-dominance", f"{fi.fq}/domain-min-length-7", ok7, w(n, m), "domains found in free text are at least seven characters long",
